@@ -152,7 +152,7 @@ def _invert_ifs(src):
 def _all_variants():
     from . import variants
     return (("shifted-lines", _shift_lines), ("re-emitted-by-ast.unparse", _reemit), ("locals-renamed", _rename_locals),
-            ("if-else-arms-swapped", _invert_ifs)) + variants.EXTRA + variants.EXTRA2 + variants.EXTRA3
+            ("if-else-arms-swapped", _invert_ifs)) + variants.EXTRA + variants.EXTRA2 + variants.EXTRA3 + variants.EXTRA4
 
 
 def _seed_job(a):
